@@ -52,9 +52,10 @@ package data
 //@ func NewIntSet(values ...int) (r IntSet)
 //@   ensures  inv(r)
 //@   ensures  [member] forall x int :: Member(r.data, x) == Member(values, x)
+//@   ensures  [size] len(r.data) <= len(values)
 //@   assigns  nothing
 //@ loop 1 (i IntSet, n rangeindex)
-//@   invariant 0 <= n && n <= len(values)
+//@   invariant 0 <= n && n <= len(values) && len(i.data) <= n
 //@   invariant inv(i) && fresh(i.data)
 //@   invariant [from] forall k int :: 0 <= k && k < len(i.data) ==> MemberN(values, n, i.data[k])
 //@   invariant [to] forall k int :: 0 <= k && k < n ==> Member(i.data, values[k])
@@ -116,3 +117,8 @@ package data
 //@   ensures  [val] r.data[v] == m.data[v] + 1
 //@   ensures  [others] forall k int :: k != v ==> r.data[k] == m.data[k]
 //@   assigns  nothing
+
+//@ -- the two package-level values are the empty set and the empty map (never written after init: no function lists them in assigns)
+//@ globalinv [empties] len(EmptyIntSet.data) == 0 && EmptyIntMap.data != nil && len(EmptyIntMap.data) == 0 && forall k int :: !dom(EmptyIntMap.data, k)
+//@ func init()
+//@   assigns EmptyIntSet, EmptyIntMap
